@@ -75,3 +75,6 @@ func RandPerm(r *rand.Rand, n int) []int {
 }
 
 func RandPermGlobal(n int) []int { return RandPerm(nil, n) }
+
+// Nop stands for a context's cancel function.
+func Nop() {}
